@@ -92,6 +92,16 @@ Theorem C01_ratios_sum_to_one : forall (n p r : nat) (X U Vt : list (list R)) (s
 Proof. exact ratios_sum_to_one. Qed.
 Print Assumptions C01_ratios_sum_to_one.
 
+(* optimality among reconstructions that keep ANY k of the r modes (equivalently X P for P a coordinate projector
+   in the V basis): keeping the first k attains the smallest error. The mask b selects the kept modes;
+   count_true r b = k says exactly k of them are kept. Real instance. *)
+Theorem C01_eckart_young_partial : forall (n p r k : nat) (X U Vt : list (list R)) (s : list R),
+  svd_ok OR n p r X (U, s, Vt) -> desc_nonneg r s -> forall (b : nat -> bool), (k <= r)%nat -> count_true r b = k ->
+  (frob2 OR n p (msub OR n p X (recon_mask n p r U Vt s (fun i => Nat.ltb i k))) <=
+   frob2 OR n p (msub OR n p X (recon_mask n p r U Vt s b)))%R.
+Proof. exact eckart_young_subsets. Qed.
+Print Assumptions C01_eckart_young_partial.
+
 (* full statement of the optimality clause (any rank-k competitor); NOT proved here — the
    proved part is C01_recon_error; see DESIGN.md section 4/C01 *)
 Definition C01_eckart_young_full : Prop :=
